@@ -205,5 +205,7 @@ func (w *World) Mature(s *Swap, class string) {
 		c.Mine(csv - 1)
 	case "long":
 		c.Mine(csv + 5)
+	case "conf": // taker: the opening transaction is confirmed deeply enough
+		c.Mine(3)
 	}
 }
